@@ -7653,11 +7653,7 @@ impl<V: Introspect, const C: usize> Introspect for arrayvec::ArrayVec<V, C> {
 }
 
 #[cfg(feature = "arrayvec")]
-impl<V: Packed, const C: usize> Packed for arrayvec::ArrayVec<V, C> {
-    unsafe fn repr_c_optimization_safe(version: u32) -> IsPacked {
-        V::repr_c_optimization_safe(version)
-    }
-}
+impl<V: Packed, const C: usize> Packed for arrayvec::ArrayVec<V, C> {}
 
 #[cfg(feature = "arrayvec")]
 impl<V: Serialize + Packed, const C: usize> Serialize for arrayvec::ArrayVec<V, C> {
